@@ -169,9 +169,17 @@ def run(ctx):
         ctx.violation({"rule": "C20.noRace", "where": "callbackDuringCleanup"}, "data race reported by the race detector in the callback-during-cleanup scenarios", detail=r.stdout[-6000:])
     elif r.returncode != 0:
         raise vlib.Inconclusive("lockx TestCallbackDuringCleanup failed:\n" + r.stdout[-3000:])
+    # a transport option that returns an error (per transfer / from a configurer), then whatever touches the option tables again: another open,
+    # the failed channel's close + cleanup + query, Stop - a fault path must not leave a library lock held
+    out6 = ctx.path("lock-failopt.ndjson")
+    r = ctx.run_go(b, "TestFailingOption", env={"VERIF_OUT": out6}, timeout=600)
+    if "DATA RACE" in r.stdout:
+        ctx.violation({"rule": "C20.noRace", "where": "failingOption"}, "data race reported by the race detector in the failing-option scenarios", detail=r.stdout[-6000:])
+    elif r.returncode != 0:
+        raise vlib.Inconclusive("lockx TestFailingOption failed:\n" + r.stdout[-3000:])
     both = ctx.path("lock-obs.ndjson")
     with open(both, "w") as f:
-        for p in (out1, out2, out3, out4, out5):
+        for p in (out1, out2, out3, out4, out5, out6):
             if os.path.exists(p):
                 f.write(open(p).read())
     n, verdicts = stages.judge(ctx, both, module="LockJudge")
